@@ -112,6 +112,16 @@ class C11(object):
             return {"entry": "SparseScan.cplabel", "ns": ns, "nf": nf, "kind": "scan", "frames": frames,
                     "threshold": rnd.choice([0.0, 5.0, 12.0]), "countall": rnd.random() < 0.5,
                     "cfg": enginea.draw_cfg(rnd, max_team=4), "gstyle": 0, "image": [], "cut": 0.0}
+        if rnd.random() < 0.04:
+            # sparseframe story: a frame cut at t_lo (carrying that threshold as metadata) is labelled with the default
+            # threshold, a brighter sub-frame is derived from it and labelled with its own threshold, then the first frame
+            # is labelled again
+            ns, nf = rnd.choice([4, 6, 9, 12]), rnd.choice([4, 5, 8, 13])
+            kind, im = make_image(rnd, g, ns, nf)
+            t_lo = rnd.choice([0.0, 1.0, 5.0])
+            return {"entry": "sparse_connected_pixels/story", "ns": ns, "nf": nf, "kind": "story", "image": np.abs(im).ravel().tolist(),
+                    "threshold": t_lo, "t_hi": t_lo + rnd.choice([2.0, 6.0, 11.0]), "explicit_zero": rnd.random() < 0.3,
+                    "cfg": enginea.draw_cfg(rnd, max_team=4), "gstyle": 0, "cut": 0.0}
         if rnd.random() < 0.05:
             # one labelimage object labels a series of frames (its two label images are swapped from frame to frame); some
             # frames have nothing above the threshold: all zero, dark only, or their maximum exactly at the threshold
@@ -171,6 +181,55 @@ class C11(object):
         d = {k: desc[k] for k in ("ns", "nf", "kind", "threshold", "cut", "cfg")}
         d["image_first_row"] = desc["image"][:desc["nf"]]
         return d
+
+    def exec_story(self, desc, ctx):
+        import io, contextlib
+        sim = ctx.sim
+        sf = self.sf
+        cfg, t_lo, t_hi = desc["cfg"], desc["threshold"], desc["t_hi"]
+        ns, nf = desc["ns"], desc["nf"]
+        im = np.array(desc["image"], np.float32).reshape(ns, nf)
+        if not (im > t_lo).any():
+            im[0, 0] = t_lo + 20
+        enginea.apply_cfg(sim, cfg, strict=0, track_conflicts=0, step_cap=50000000)
+        sim.begin_run()
+        viol = None
+
+        def check(frame, thr, n, what):
+            sel = np.zeros((ns, nf), bool)
+            sel[frame.row, frame.col] = True
+            dense = np.zeros((ns, nf), np.float32)
+            dense[frame.row, frame.col] = frame.pixels["intensity"]
+            ref, nref = scipy.ndimage.label(dense > np.float32(thr), S8)
+            got = np.asarray(frame.pixels["connectedpixels"])
+            want = ref[frame.row, frame.col]
+            if n != nref or ((got != 0) != (want != 0)).any() or canon(got) != canon(want):
+                return {"class": "partition-differs", "key": "sparse_connected_pixels:partition-differs",
+                        "detail": "%s: %d labels, the frame has %d components above %g (or another partition)" % (what, n, nref, thr)}
+            return None
+        with contextlib.redirect_stdout(io.StringIO()):
+            low = sf.from_data_cut(im, t_lo, {"threshold": t_lo})
+            n1 = sf.sparse_connected_pixels(low)
+            viol = check(low, t_lo, n1, "frame cut at %g, labelled with its default threshold" % t_lo)
+            hi = low.threshold(t_hi) if (np.asarray(low.pixels["intensity"]) > t_hi).any() else None   # empty frames are refused
+            if viol is None and hi is not None and hi.nnz:
+                hi.meta["intensity"]["threshold"] = t_hi
+                n2 = sf.sparse_connected_pixels(hi)
+                viol = check(hi, t_hi, n2, "sub-frame above %g derived from it" % t_hi)
+            if viol is None:
+                n3 = sf.sparse_connected_pixels(low)
+                viol = check(low, t_lo, n3, "the first frame labelled again after a sub-frame was derived and labelled")
+            if viol is None and desc.get("explicit_zero"):
+                n4 = sf.sparse_connected_pixels(low, threshold=0)
+                viol = check(low, 0.0, n4, "the first frame with an explicit threshold of 0")
+        st = sim.stats()
+        meas = enginea.run_measures(st, cfg)
+        meas["image_kind"] = {"story": 1}
+        meas["dset_capacity"] = {cfg.get("dset_cap", 0) or 16384: 1}
+        meas["dset_grew(realloc)"] = 0
+        meas["concurrent_frame_pairs"] = 0
+        return {"digest": enginea.sha(st["digest"], np.asarray(low.pixels["connectedpixels"])), "sig": enginea.sha(desc["image"], t_lo, t_hi),
+                "nontrivial": True, "viol": viol, "measures": meas}
 
     def exec_labelimage(self, desc, ctx):
         import io, contextlib
@@ -283,6 +342,8 @@ class C11(object):
             return self.exec_scan(desc, ctx)
         if desc["entry"] == "labelimage.labelpeaks":
             return self.exec_labelimage(desc, ctx)
+        if desc["entry"] == "sparse_connected_pixels/story":
+            return self.exec_story(desc, ctx)
         sim = ctx.sim
         ns, nf, th, cfg = desc["ns"], desc["nf"], desc["threshold"], desc["cfg"]
         im = np.array(desc["image"], np.float32).reshape(ns, nf)
@@ -436,7 +497,7 @@ class C11(object):
 
     def minimise(self, desc, viol, ctx):
         cls = viol["class"]
-        if desc["entry"] in ("SparseScan.cplabel", "labelimage.labelpeaks"):
+        if desc["entry"] in ("SparseScan.cplabel", "labelimage.labelpeaks", "sparse_connected_pixels/story"):
             return desc
 
         def fails(d):
